@@ -489,6 +489,8 @@ fn parse_token(
     // // go up tree until no parent
     trace!("Searching parent chain for true left starting at {:?}", current_left);
     while let Some(left_index) = current_left {
+        #[cfg(garnish_verif)]
+        crate::verif::count_parse_walk();
         trace!("Walking: {:?}", left_index);
         match nodes.get(left_index) {
             None => implementation_error(format!("Index assigned to node has no value in node list. {:?}", left_index))?,
